@@ -120,7 +120,11 @@ def build_call(w, mod, c):
         # the caller builds the message with the PYTHON attribute names
         if 'class' in d:
             d['class_'] = d.pop('class')
-        return cls(**d)
+        vals = d.pop('vals', None)
+        out = cls(**d)
+        if vals:
+            out.vals.extend(vals)      # (see callrun.get_cases: the constructor cannot take a repeated Value)
+        return out
 
     if c['cs']:
         return dict(requests=iter([msg(v) for v in reqs]))
